@@ -11,10 +11,11 @@ CONSTANTS
   AttachGuard = TRUE
   SaveGuard = TRUE
   ObjSeq <- Seq3b
+  HandMode = FALSE
   Bias = FALSE
   Quiet = TRUE
 INIT Init
 NEXT Next
 VIEW view
-INVARIANTS RefinesDecl RefCountExact OwnerIffSingle NoDangling ReachableUnlessCyclic
+INVARIANTS RefinesDecl RefCountExact OwnerIffSingle NoDangling IdCounter ReachableUnlessCyclic
 CHECK_DEADLOCK FALSE
